@@ -99,7 +99,7 @@ func fileSafe(s string) string {
 
 func hasProp(ps []string, p string) bool {
 	for _, x := range ps {
-		if x == p {
+		if x == p || x == "ALL" {
 			return true
 		}
 	}
@@ -195,6 +195,31 @@ func cmdCheck(args []string) {
 		funcs = append(funcs, funcRecord{Func: strings.ReplaceAll(rep.Func, repoMod+"/", ""), Blocks: rep.Blocks, Instrs: rep.Instrs, Loops: rep.Loops,
 			Exits: rep.Exits, Obls: len(mine), HavocCalls: rep.HavocCalls, Notes: notes})
 		allObls = append(allObls, mine...)
+	}
+	for _, sf := range e.specFiles {
+		need := false
+		for _, g := range sf.Globals {
+			if hasProp(g.Props, prop) {
+				need = true
+			}
+			if len(g.Props) == 0 {
+				specErrs = append(specErrs, fmt.Sprintf("%s:%d: global fact without property tag", g.File, g.Line))
+			}
+		}
+		if !need {
+			continue
+		}
+		rep := e.verifyGlobals(sf)
+		specErrs = append(specErrs, rep.SpecErrs...)
+		n := 0
+		for _, o := range rep.Obls {
+			if o.Kind == "cover" || hasProp(o.Props, prop) {
+				o.Props = append(o.Props, prop)
+				allObls = append(allObls, o)
+				n++
+			}
+		}
+		funcs = append(funcs, funcRecord{Func: rep.Func, Blocks: rep.Blocks, Instrs: rep.Instrs, Exits: rep.Exits, Obls: n})
 	}
 	for _, sf := range e.specFiles {
 		for _, l := range sf.Lemmas {
